@@ -536,9 +536,19 @@ class CParser:
 
     def _peek_declarator_name_info(self) -> Tuple[Optional[str], bool]:
         mark = self._mark()
-        tok_type, saw_paren = self._scan_declarator_name_info()
+        tok_type, saw_paren, _ = self._scan_declarator_name_info()
         self._reset(mark)
         return tok_type, saw_paren
+
+    def _peek_declarator_name_is_pointee(self) -> bool:
+        # True when the name of the upcoming declarator directly follows a
+        # pointer inside its innermost parentheses, as in '(*T)': such a
+        # parenthesis cannot open a parameter list, so T is the declared name
+        # even if it is a typedef name (unlike '(T)', see C11 6.7.6.3p11).
+        mark = self._mark()
+        _, _, after_pointer = self._scan_declarator_name_info()
+        self._reset(mark)
+        return after_pointer
 
     def _parse_any_declarator(
         self, allow_abstract: bool = False, typeid_paren_as_abstract: bool = False
@@ -548,8 +558,17 @@ class CParser:
         #   typedef char TT;
         #   int bar(int (TT));   -> TT is a type (TYPEID) in parens
         name_type, saw_paren = self._peek_declarator_name_info()
+        named_typeid_in_paren = (
+            typeid_paren_as_abstract
+            and name_type == "TYPEID"
+            and saw_paren
+            and self._peek_declarator_name_is_pointee()
+        )
         if name_type is None or (
-            typeid_paren_as_abstract and name_type == "TYPEID" and saw_paren
+            typeid_paren_as_abstract
+            and name_type == "TYPEID"
+            and saw_paren
+            and not named_typeid_in_paren
         ):
             if not allow_abstract:
                 tok = self._peek()
@@ -559,7 +578,7 @@ class CParser:
             return decl, False
 
         if name_type == "TYPEID":
-            if typeid_paren_as_abstract:
+            if typeid_paren_as_abstract and not named_typeid_in_paren:
                 decl = self._parse_typeid_noparen_declarator()
             else:
                 decl = self._parse_typeid_declarator()
@@ -567,30 +586,32 @@ class CParser:
             decl = self._parse_id_declarator()
         return decl, True
 
-    def _scan_declarator_name_info(self) -> Tuple[Optional[str], bool]:
+    def _scan_declarator_name_info(self) -> Tuple[Optional[str], bool, bool]:
         saw_paren = False
+        saw_pointer = False
         while self._accept("TIMES"):
+            saw_pointer = True
             while self._peek_type() in _TYPE_QUALIFIER:
                 self._advance()
 
         tok = self._peek()
         if tok is None:
-            return None, saw_paren
+            return None, saw_paren, False
         if tok.type in {"ID", "TYPEID"}:
             self._advance()
-            return tok.type, saw_paren
+            return tok.type, saw_paren, saw_pointer
         if tok.type == "LPAREN":
             saw_paren = True
             self._advance()
-            tok_type, nested_paren = self._scan_declarator_name_info()
+            tok_type, nested_paren, after_pointer = self._scan_declarator_name_info()
             if nested_paren:
                 saw_paren = True
             # The caller only needs the kind of the name token and rewinds
             # afterwards, so there is no point in scanning on to the matching
             # ')': doing so for every nesting level made the lookahead
             # quadratic for declarators nested through parameter lists.
-            return tok_type, saw_paren
-        return None, saw_paren
+            return tok_type, saw_paren, after_pointer
+        return None, saw_paren, False
 
     def _starts_direct_abstract_declarator(self) -> bool:
         return self._peek_type() in {"LPAREN", "LBRACKET"}
